@@ -645,6 +645,14 @@ func (e *SpecEnv) callExpr(n *ECall, cur, old *State) Val {
 			}
 			lo, hi := tupleRange(tt, int(ix.V))
 			return Val{T: tt.At(int(ix.V)).Type(), L: v.L[lo:hi]}
+		case "streampos":
+			v := e.eval(n.Args[0], cur, old)
+			vc.registerComp("Pos", SArr(SInt, SInt))
+			ref := v.L[0]
+			if len(v.L) == 2 {
+				ref = v.L[1]
+			}
+			return scalar(intT, Select(vc.get(cur, "Pos"), ref))
 		case "hasPrefix":
 			a := e.eval(n.Args[0], cur, old)
 			b := e.eval(n.Args[1], cur, old)
